@@ -22,7 +22,7 @@ from harness import c10_wrappers as cw  # noqa: E402
 from lib import checklib  # noqa: E402
 
 PID = "C02"
-BUILDS = [("cls.yaml", "cls.hpp"), ("strs.yaml", "strs.hpp"), ("cstrs.yaml", "cstrs.h")]
+BUILDS = [("cls.yaml", "cls.hpp"), ("strs.yaml", "strs.hpp"), ("cstrs.yaml", "cstrs.h"), ("vres.yaml", "vres.hpp")]
 
 
 def expected_entry_points(build):
@@ -60,6 +60,20 @@ def expected_entry_points(build):
     return out
 
 
+def prototype_verdict(fi):
+    """The C prototype's return type against the declaration, for every generated function (also those whose body is
+    outside the harness): a result that travels through an argument (result buffer / array context of a string, char or
+    vector result) leaves nothing to return, and a void C++ function returns nothing."""
+    roles = {r[0] for r in fi.roles() if r}
+    ret = fi.ret_c.strip()
+    moved = "res_buf" in roles or ("res_context" in roles and fi.result is not None and fi.result.kind() in ("string", "charp", "vector"))
+    if moved and ret != "void":
+        return "%s hands its result back through an argument but is declared to return '%s' (nothing is returned)" % (fi.cname, ret)
+    if fi.result is None and not fi.is_ctor and "res_capsule" not in roles and ret != "void":
+        return "%s wraps a function without result but is declared to return '%s'" % (fi.cname, ret)
+    return None
+
+
 def main():
     tier, seed, rp = checklib.tier_and_seed()
     if rp:
@@ -88,6 +102,10 @@ def main():
             if len(have) != want:
                 entry_viol.append({"kernel": "entry_points", "build": list(key), "decl": decl, "expected": want, "have": have,
                                    "what": "declaration %r has %d callable signatures (default-argument arities) but %d C entry points %r" % (decl, want, len(have), have)})
+        for cname in sorted(infos):
+            pv = prototype_verdict(infos[cname])
+            if pv:
+                entry_viol.append({"kernel": "prototype", "build": list(key), "function": cname, "what": pv})
         for cname in sorted(infos):
             h = wrapsym.WrapperHarness(key, cname, cap)
             h.build, h.infos, h.info = b, infos, infos[cname]
@@ -164,6 +182,9 @@ def can_replay(v):
 
 def confirm_entry(w):
     b = lc.get_build(tuple(w["build"]))
+    if w.get("kernel") == "prototype":
+        fi = wrapsym.collect(b).get(w["function"])
+        return prototype_verdict(fi) if fi is not None else None
     for decl, want, have in expected_entry_points(b):
         if decl == w["decl"] and len(have) != want:
             return "declaration %r: %d callable signatures, C entry points %r" % (decl, want, have)
